@@ -12,6 +12,7 @@ package c04
 import (
 	"bufio"
 	"bytes"
+	"encoding/binary"
 	"encoding/json"
 	"fmt"
 	"io/ioutil"
@@ -692,7 +693,7 @@ func TestC04(t *testing.T) {
 	rep := &reporter{r: r, seen: map[string]int{}}
 	reg := registry()
 	r.Rule("explicit registry of parameter / record types; values from a reflection-driven, boundary-biased generator constrained to each type's representable domain (var-uint edges, 0/252..256/65535+ byte lengths, nil vs empty, near-identical map keys, map sizes 0..40; then every collection of every type forced to 252/253/254/255/256 and 65535/65536 entries with small elements); " +
-		"map-bearing records rebuilt in 8 insertion orders × capacities and encoded repeatedly; hostile inputs per type = every truncation, length/count-field substitutions {00,fd,fe,ff + wide values}, appended bytes and random strings, decoded in child processes; " +
+		"map-bearing records rebuilt in 8 insertion orders × capacities and encoded repeatedly; hostile inputs per type = every truncation, length/count-field substitutions {00,fd,fe,ff + wide values}, counts that make count*k wrap around 2^64 for k in 1..64 written over each located count field, appended bytes and random strings, decoded in child processes; " +
 		"distinct = (type, shape of the value: lengths classes / map size) and (type, hostile class, outcome)")
 	r.Assume("deep equality treats nil and empty slices / maps as the same value and compares big.Int by value")
 	for _, e := range excluded {
@@ -917,7 +918,7 @@ func hostileParent(r *kit.Run, rep *reporter, reg []*spec) {
 	}
 	tmp := pk.TempDir("c04-hostile")
 	defer os.RemoveAll(tmp)
-	per := r.N(3000, 60000)
+	per := r.N(4000, 60000)
 	maxDeaths := r.N(6, 8)
 	jobs := make(chan *spec)
 	var wg sync.WaitGroup
@@ -954,8 +955,12 @@ func hostileParent(r *kit.Run, rep *reporter, reg []*spec) {
 					r.Count("hostile_accepted", res.Accepted)
 					r.Count("hostile_accepted_and_stable", res.Stable)
 					r.Count("hostile_cases:"+s.name, res.Cases)
-					for c := range res.Classes {
+					for c, cnt := range res.Classes {
 						r.Distinct("hostile", s.name, c)
+						if strings.HasPrefix(c, "wrapping-count") {
+							r.Count("hostile_wrapping_count_cases", cnt)
+							r.Count("hostile_wrapping_count_cases:"+s.name, cnt)
+						}
 					}
 					for _, f := range res.Panics {
 						report("decode-panic:"+s.name, fmt.Sprintf("%s input made the decoder panic: %s (%d such inputs in this run)", f.Class, f.Msg, res.PanicN),
@@ -997,6 +1002,9 @@ func hostileParent(r *kit.Run, rep *reporter, reg []*spec) {
 	r.Require("hostile_cases", len(reg)*per/2)
 	r.Require("hostile_rejected", len(reg)*per/4)
 	r.Require("hostile_accepted_and_stable", len(reg))
+	r.Require("hostile_wrapping_count_cases", 4000)
+	r.Require("hostile_wrapping_count_cases:btc.Utxos", 300)
+	r.Require("hostile_wrapping_count_cases:node_manager.PeerPoolMap", 300)
 }
 
 func readLast(path string) (int, string, string) {
@@ -1069,6 +1077,57 @@ func hostileCases(s *spec, rng *rand.Rand, n int) []hostileCase {
 	if len(tail) > n/8 {
 		tail = tail[:n/8]
 	}
+	// Counts whose product with a small element size wraps around 2^64 (a "count * size <= bytes
+	// left" plausibility bound computed in uint64 lets them through): for every element size k in
+	// 1..64 the values ceil(2^64/k), +1 and twice that, written over the count field of each
+	// collection of the type. The count field is located by encoding the same value with one and
+	// with two entries (same generator stream): the first differing byte is the count. Such counts
+	// are >= 2^58, so they can only be refused or trip an allocation size check, never be allocated.
+	var ov []hostileCase
+	for skip := 0; skip < 3; skip++ {
+		sd := rng.Int63()
+		v1, ok1 := s.genN(rand.New(rand.NewSource(sd)), 1, skip)
+		v2, ok2 := s.genN(rand.New(rand.NewSource(sd)), 2, skip)
+		if !ok1 || !ok2 {
+			break
+		}
+		b1, e1 := s.encode(v1)
+		b2, e2 := s.encode(v2)
+		if e1 != nil || e2 != nil {
+			continue
+		}
+		pos := 0
+		for pos < len(b1) && pos < len(b2) && b1[pos] == b2[pos] {
+			pos++
+		}
+		if pos >= len(b1) {
+			continue
+		}
+		two64 := new(big.Int).Lsh(big.NewInt(1), 64)
+		for k := int64(1); k <= 64; k++ {
+			q := new(big.Int).Add(two64, big.NewInt(k-1))
+			q.Div(q, big.NewInt(k)) // ceil(2^64/k)
+			for _, c := range []*big.Int{q, new(big.Int).Add(q, big.NewInt(1)), new(big.Int).Lsh(q, 1), new(big.Int).Mul(q, big.NewInt(3))} {
+				if c.Cmp(two64) >= 0 {
+					continue
+				}
+				le := make([]byte, 8)
+				binary.LittleEndian.PutUint64(le, c.Uint64())
+				// the count as a fixed 8-byte field, and as a var-uint (0xff form) in place of a 1-byte count
+				d := append([]byte{}, b1...)
+				for len(d) < pos+8 {
+					d = append(d, 0)
+				}
+				copy(d[pos:], le)
+				ov = append(ov, hostileCase{"wrapping-count-overwritten", d})
+				ov = append(ov, hostileCase{"wrapping-count-spliced", append(append(append([]byte{}, b1[:pos]...), append([]byte{0xff}, le...)...), b1[pos+1:]...)})
+			}
+		}
+	}
+	if len(ov) > n/2 {
+		ov = ov[:n/2]
+	}
+	out = append(ov, out...)
 	n -= len(tail)
 	add := func(class string, d []byte) {
 		if len(out) < n {
